@@ -87,6 +87,10 @@ class MAUPITILinear(nn.Linear, MAUPITIModule):
                 self.b_quantizer.dequantize = False
                 int_bias = self.b_quantizer(linear.bias, self.s_x, self.s_w)
                 int_bias = cast(torch.Tensor, int_bias)
+            else:
+                # No bias: an all-zero integer bias keeps the overflow check of
+                # `_integer_approximation` and the requantization well defined
+                int_bias = torch.zeros(self.out_features, device=self.device)
 
         self.scale, self.shift = self._integer_approximation(self.s_w, self.s_x, self.s_y,
                                                              int_bias)
@@ -95,7 +99,7 @@ class MAUPITILinear(nn.Linear, MAUPITIModule):
                 int_bias = int_bias * self.scale
                 self.add_bias = int_bias.view(1, self.out_features)
             else:
-                self.add_bias = None
+                self.add_bias = int_bias.view(1, self.out_features)
 
         # Done here to avoid the reshape op in fwd
         self.scale = self.scale.view(1, self.out_features)
